@@ -11,6 +11,7 @@ import Fx.Lemmas.Generic
 import Fx.Lemmas.PegTerm
 import Fx.Lemmas.PegFuel
 import Fx.Lemmas.WalkTotal
+import Fx.Lemmas.EmitTotal
 namespace Fx.C14
 open Fx
 
@@ -165,5 +166,11 @@ theorem C14_ok_err_or_known_panic (txt : String) :
   | err => exact Or.inr (Or.inl rfl)
   | panicAt f m => exact Or.inr (Or.inr (Or.inl ⟨f, m, rfl, front_end_known_panics txt f m h⟩))
   | outOfFuel => exact Or.inr (Or.inr (Or.inr rfl))
+
+/-- the emitters: after a successful `Ast::new`, `Generator::generate` returns `Ok`, returns `Err`, or reaches its one
+    `unreachable!` — a fixed-length `string s[N]` (finding K6.e) -/
+theorem C14_generate_only_known_panic (a : Ast) (f m : String) (h : generateModule a = .panicAt f m) :
+    f = "from.rs" ∧ m = "unexpected fixed length string" :=
+  generateModule_g1 a f m h
 
 end Fx.C14
